@@ -487,20 +487,198 @@ Proof.
       * cbn [wst set_cl set_unc]. destruct (st_eqb (wst w t) TErr) eqn:E2.
         { destruct (wst w t); discriminate. }
         cbn [wmode wms wph wloc wpend wst wcl wunc werr set_pend set_unc set_cl set_st].
-        repeat split; auto; try (rewrite upd_other by assumption; reflexivity).
+        repeat split; auto; try (rewrite !upd_other by assumption; reflexivity).
         left. rewrite ?upd_same. repeat split; auto.
       * cbn [wst set_cl set_unc set_st]. rewrite upd_same. cbn [st_eqb].
         cbn [wmode wms wph wloc wpend wst wcl wunc werr set_err set_unc set_cl set_st].
-        repeat split; auto; try (rewrite upd_other by assumption; reflexivity).
+        repeat split; auto; try (rewrite !upd_other by assumption; reflexivity).
         right. rewrite ?upd_same. repeat split; auto.
     + destruct (st_eqb (wst w t) TErr) eqn:E2.
       { destruct (wst w t); discriminate. }
       cbn [wmode wms wph wloc wpend wst wcl wunc werr set_pend set_unc set_cl set_st].
-      repeat split; auto; try (rewrite upd_other by assumption; reflexivity).
+      repeat split; auto; try (rewrite !upd_other by assumption; reflexivity).
       left. rewrite ?upd_same. repeat split; auto.
   - destruct (st_eqb (wst w t) TErr) eqn:E2.
     { destruct Hs as [E|E]; rewrite E in E2; discriminate. }
     cbn [wmode wms wph wloc wpend wst wcl wunc werr set_pend set_unc set_cl set_st].
-    repeat split; auto; try (rewrite upd_other by assumption; reflexivity).
+    repeat split; auto; try (rewrite !upd_other by assumption; reflexivity).
     left. rewrite ?upd_same. repeat split; auto.
 Qed.
+
+Lemma idle_phase w t : K w -> wst w t = TInit \/ wst w t = TLost -> wph w t = PNone.
+Proof.
+  intros HK Hs. destruct (wph w t) as [|m|m] eqn:E; [reflexivity| |].
+  - rewrite (k_rep w HK t m E) in Hs. destruct Hs; discriminate.
+  - rewrite (k_mid w HK t m E) in Hs. destruct Hs; discriminate.
+Qed.
+
+Lemma G_dispatch w t : G w -> K w -> werr w = false ->
+  active w = true -> mem t (runnable g roots w) = true -> G (stepT w (LDispatch t)).
+Proof.
+  intros HG HK He Ha Hr.
+  destruct (dispatch_frame w t HG He Ha Hr) as (F1 & F2 & F3 & F4 & F6 & F7).
+  destruct (runnable_sound g roots w t Hr) as [Hs Hnp].
+  pose proof (idle_phase w t HK Hs) as Eph.
+  assert (Ht : t < n) by (apply runnable_lt with w; apply mem_In; exact Hr).
+  destruct HG as [G1 G2 G3 G4 G5 G6 G7 G8].
+  set (w' := stepT w (LDispatch t)) in *. clearbody w'.
+  destruct F7 as [(a & b & c & d & e & f)|(a & b & c)].
+  - constructor.
+    + intros _ x. destruct (Nat.eq_dec x t) as [->|Hn].
+      * rewrite a. split; [discriminate|exact c].
+      * destruct (F6 x Hn) as (p & q & _). rewrite p, q. apply G1. exact He.
+    + intros x. rewrite e. destruct (Nat.eq_dec x t) as [->|Hn]; [auto|].
+      rewrite mem_cons_other by exact Hn. destruct (F6 x Hn) as (_ & _ & r). rewrite r. apply G2.
+    + intros x. rewrite e, F3. destruct (Nat.eq_dec x t) as [->|Hn].
+      * intros _. rewrite mem_cons_same. auto.
+      * rewrite mem_cons_other by exact Hn. destruct (F6 x Hn) as (p & _). rewrite p. apply G3.
+    + intros x m'. rewrite e, F3. intro H. destruct (Nat.eq_dec x t) as [->|Hn]; [congruence|].
+      rewrite mem_cons_other by exact Hn. eapply G4; eauto.
+    + intros x m'. rewrite e, F3. intro H. destruct (Nat.eq_dec x t) as [->|Hn]; [congruence|].
+      rewrite mem_cons_other by exact Hn. eapply G5; eauto.
+    + intros x. rewrite e. destruct (Nat.eq_dec x t) as [->|Hn]; [auto|].
+      rewrite mem_cons_other by exact Hn. apply G6.
+    + rewrite F3. exact G7.
+    + rewrite F1. exact G8.
+  - constructor.
+    + rewrite b. discriminate.
+    + intros x. rewrite c. intro H. destruct (Nat.eq_dec x t) as [->|Hn]; [congruence|].
+      destruct (F6 x Hn) as (_ & _ & r). rewrite r. apply G2. exact H.
+    + intros x. rewrite c, F3. destruct (Nat.eq_dec x t) as [->|Hn]; [congruence|].
+      destruct (F6 x Hn) as (p & _). rewrite p. apply G3.
+    + rewrite c, F3. exact G4.
+    + rewrite c, F3. exact G5.
+    + rewrite c. exact G6.
+    + rewrite F3. exact G7.
+    + rewrite F1. exact G8.
+Qed.
+
+Lemma dec_dispatch w t : G w -> K w -> werr w = false ->
+  active w = true -> mem t (runnable g roots w) = true -> mu (stepT w (LDispatch t)) < mu w.
+Proof.
+  intros HG HK He Ha Hr.
+  destruct (dispatch_frame w t HG He Ha Hr) as (F1 & F2 & F3 & F4 & F6 & F7).
+  destruct (runnable_sound g roots w t Hr) as [Hs Hnp].
+  assert (Ht : t < n) by (apply runnable_lt with w; apply mem_In; exact Hr).
+  destruct (g_cl w HG He t) as [_ Hc].
+  pose proof (W_S (wcl w t) Hc) as E. unfold A in E.
+  set (w' := stepT w (LDispatch t)) in *. clearbody w'.
+  apply (mu_dec_task w w' t); auto.
+  - intro m'. rewrite (getm_ms w w') by exact F2. reflexivity.
+  - intros x Hx. destruct (F6 x Hx) as (a & b & _). rewrite a, b, F3.
+    destruct F7 as [(_ & _ & _ & _ & e & _)|(_ & _ & c)].
+    + rewrite e, mem_cons_other by exact Hx. auto.
+    + rewrite c. auto.
+  - unfold tau at 2. rewrite Hnp.
+    assert (Hold : W (wcl w t) = match wst w t with TInit | TLost => W (wcl w t) | _ => 0 end)
+      by (destruct Hs as [Es|Es]; rewrite Es; reflexivity).
+    assert (Hw : (match wst w t with TInit | TLost => W (wcl w t) | TWaiting => W (wcl w t) - 1
+                  | TRunning => W (wcl w t) - 2
+                  | TOk => match wph w t with PMid m => if mlost (getm w m) then W (S (wcl w t)) + 2 else 2
+                                              | _ => 0 end
+                  | TErr => 0 end) = W (wcl w t))
+      by (destruct Hs as [Es|Es]; rewrite Es; reflexivity).
+    rewrite Hw. unfold tau.
+    destruct F7 as [(a & b & c & d & e & f)|(a & b & c)]; rewrite a.
+    + assert (W (wcl w' t) <= W (wcl w t)) by (unfold W; apply Nat.mul_le_mono_r; lia). lia.
+    + lia.
+Qed.
+
+(* ------------------------------------------------------------------ LFinish, LScan *)
+
+Lemma G_mode w x :
+  G w -> match x with MScan i _ k => i < length roots /\ k <= max_retry | _ => True end ->
+  G (set_mode w x).
+Proof. intros [G1 G2 G3 G4 G5 G6 G7 G8] H. constructor; auto. Qed.
+
+Lemma scan_start_ok i acc :
+  match scan_start roots i acc with MScan i _ k => i < length roots /\ k <= max_retry | _ => True end.
+Proof.
+  unfold scan_start. destruct (nth_error roots i) eqn:E; [|exact I].
+  split; [|lia]. apply nth_error_Some. congruence.
+Qed.
+
+Lemma finish_eq w : finish_ok roots w = true ->
+  stepT w LFinish = set_mode w (scan_start roots 0 []) /\ wmode w = MEval.
+Proof.
+  unfold finish_ok. cbn [Control.step]. destruct (wmode w); try discriminate.
+  unfold nopend. intro H. rewrite H. auto.
+Qed.
+
+Lemma dec_finish w : finish_ok roots w = true -> mu (stepT w LFinish) < mu w.
+Proof.
+  intro H. destruct (finish_eq w H) as [E Em]. rewrite E. apply mu_dec_mode.
+  unfold nu. cbn [wmode set_mode]. rewrite Em. unfold scan_start.
+  destruct (nth_error roots 0); lia.
+Qed.
+
+Lemma G_finish w : G w -> finish_ok roots w = true -> G (stepT w LFinish).
+Proof.
+  intros HG H. destruct (finish_eq w H) as [E _]. rewrite E. apply G_mode; [exact HG|apply scan_start_ok].
+Qed.
+
+Lemma scan_eq w : scan_ok roots w = true ->
+  exists i acc k r, wmode w = MScan i acc k /\ nth_error roots i = Some r /\
+    wst w r = TOk /\ wpend w = [] /\
+    stepT w LScan = set_mode w (match read_loc w r with
+                                | Some rws => scan_start roots (S i) (acc ++ [rws])
+                                | None => if Nat.ltb k max_retry then MScan i acc (S k) else MFail
+                                end).
+Proof.
+  unfold scan_ok. cbn [Control.step]. destruct (wmode w) as [|i acc k| |]; try discriminate.
+  destruct (nth_error roots i) as [r|] eqn:Er; [|discriminate].
+  unfold nopend. intro H. rewrite H. exists i, acc, k, r.
+  apply andb_true_iff in H as [H H3]. apply andb_true_iff in H as [H1 H2].
+  repeat split; auto.
+  - unfold is_ok in H3. destruct (wst w r); try discriminate; reflexivity.
+  - destruct (wpend w); [reflexivity|discriminate].
+  - destruct (read_loc w r); reflexivity.
+Qed.
+
+Lemma dec_scan w : G w -> scan_ok roots w = true -> mu (stepT w LScan) < mu w.
+Proof.
+  intros HG H. destruct (scan_eq w H) as (i & acc & k & r & Em & Er & _ & _ & E). rewrite E.
+  apply mu_dec_mode. pose proof (g_scan w HG) as Hs. rewrite Em in Hs. destruct Hs as [Hi Hk].
+  unfold nu. cbn [wmode set_mode]. rewrite Em.
+  assert (HQ : (length roots - i) * Q = (length roots - S i) * Q + Q).
+  { replace (length roots - i) with (S (length roots - S i)) by lia. lia. }
+  assert (Hk2 : k + 2 <= Q) by (unfold Q; lia).
+  rewrite HQ. remember ((length roots - S i) * Q) as X eqn:EX. clear EX HQ.
+  destruct (read_loc w r).
+  - unfold scan_start. destruct (nth_error roots (S i)); cbn [wmode]; try rewrite <- EX; lia.
+  - destruct (Nat.ltb_spec k max_retry); lia.
+Qed.
+
+Lemma G_scan w : G w -> scan_ok roots w = true -> G (stepT w LScan).
+Proof.
+  intros HG H. destruct (scan_eq w H) as (i & acc & k & r & Em & Er & _ & _ & E). rewrite E.
+  pose proof (g_scan w HG) as Hs. rewrite Em in Hs. destruct Hs as [Hi Hk].
+  apply G_mode; [exact HG|]. destruct (read_loc w r); [apply scan_start_ok|].
+  destruct (Nat.ltb_spec k max_retry); [split; lia|exact I].
+Qed.
+
+(* ------------------------------------------------------------------ environment steps *)
+
+Lemma G_kill w m : G w -> G (stepT w (LKill m)).
+Proof.
+  intros [G1 G2 G3 G4 G5 G6 G7 G8]. cbn [Control.step].
+  destruct (Nat.ltb m (length (wms w))); constructor; auto.
+Qed.
+
+Lemma G_start w : G w -> G (stepT w LStart).
+Proof. intros [G1 G2 G3 G4 G5 G6 G7 G8]. constructor; auto. Qed.
+
+Lemma G_notice w m : G w -> G (stepT w (LNotice m)).
+Proof.
+  intros [G1 G2 G3 G4 G5 G6 G7 G8]. cbn [Control.step].
+  destruct (Nat.ltb m (length (wms w))); [|constructor; auto].
+  constructor; cbn [wst wcl wunc wph wpend werr wmode set_st]; auto.
+  - intros He x. destruct (G1 He x) as [a b]. split; [|exact b].
+    rewrite mark_lost_spec. destruct (mem x _); [discriminate|exact a].
+  - intros x. rewrite mark_lost_spec. destruct (mem x _); [discriminate|apply G3].
+Qed.
+
+Lemma mu_start w : InvT w -> mu (stepT w LStart) = mu w.
+Proof.
+  intro HI. unfold mu. f_equal. apply sumf_ext. intros t _. apply tau_ext; try reflexivity.
+Abort.
